@@ -2,8 +2,9 @@ SPECIFICATION Spec
 CONSTANTS
   Files = {"r", "a", "b", "c"}
   Root = "r"
+  SubFiles = {"b"}
   MaxDepth = 8
-INVARIANTS TraceLockDiscipline TraceDepthBound TraceInitOnce TraceFaultReported
+INVARIANTS UrlsResolve TraceLockDiscipline TraceDepthBound TraceInitOnce TraceFaultReported
 CONSTRAINT Track
 POSTCONDITION Accepted
 CHECK_DEADLOCK FALSE
